@@ -361,8 +361,28 @@ func ruleBlocksHead(r *Run, rule string) {
 			a.ok, a.msg, a.pos = false, msg, pos
 		}
 	}
-	popAllowed := map[string]bool{"BlockEnd": true, "ExecuteBlock": true}
-	fillAllowed := map[string]bool{"Start": true, "Recovery": true}
+	popNames := map[string]bool{"BlockEnd": true, "ExecuteBlock": true}
+	fillNames := map[string]bool{"Start": true, "Recovery": true}
+	// a helper called only from the allowed states (directly or through such helpers) is covered by the table
+	covered := func(names map[string]bool) map[string]bool {
+		out := map[string]bool{}
+		for _, fn := range r.P.sortedFuncs() {
+			if fn.Pkg != pkg {
+				continue
+			}
+			if r.P.CallGraph().OnlyCalledFrom(fn.Key, func(k string) bool {
+				return strings.HasPrefix(k, pkgSM+".States.") && names[strings.TrimPrefix(k, pkgSM+".States.")]
+			}) {
+				out[fn.Obj.Name()] = true
+			}
+		}
+		for n := range names {
+			out[n] = true
+		}
+		return out
+	}
+	popAllowed := covered(popNames)
+	fillAllowed := covered(fillNames)
 	for _, fn := range r.P.sortedFuncs() {
 		if fn.Pkg != pkg || fn.Decl.Body == nil {
 			continue
